@@ -194,28 +194,33 @@ func Profiles(tier string, seed int64) []M {
 			add(M{"page_size": ps, "rows": rows, "frag": i%2 == 1})
 		}
 		add(M{"page_size": 512, "rows": 5000, "features": []string{"plain", "alias", "wr"}}) // depth 3
-		add(M{"page_size": 1024, "rows": 12000, "features": []string{"plain", "alias"}})  // interior pages with a large fan-out
+		add(M{"page_size": 1024, "rows": 12000, "features": []string{"plain", "alias"}})     // interior pages with a large fan-out
 		add(M{"page_size": 1024, "rows": 800, "auto_vacuum": 1, "frag": true})
 		add(M{"page_size": 4096, "rows": 600, "auto_vacuum": 2, "frag": true, "incr_vacuum": true})
 		add(M{"page_size": 1024, "rows": 900, "frag": true, "vacuum": true})
 		add(M{"page_size": 512, "rows": 40, "features": []string{"plain", "alias", "pk", "cpk", "wr", "wr2", "alter", "misc", "wide"}})
 		return out
 	}
-	for i, ps := range AllPageSizes {
-		for v := 0; v < 6; v++ {
-			rows := []int{5, 60, 400, 1500, 3000, 800}[v]
-			if ps >= 16384 {
-				rows *= 3
+	for rep := 0; rep < 3; rep++ {
+		for i, ps := range AllPageSizes {
+			for v := 0; v < 6; v++ {
+				if rep > 0 && (v == 2 || v == 4) && ps >= 8192 {
+					continue // the largest variants once only
+				}
+				rows := []int{5, 60, 400, 1500, 3000, 800}[v]
+				if ps >= 16384 {
+					rows *= 3
+				}
+				m := M{"page_size": ps, "rows": rows, "frag": (i+v)%2 == 1, "auto_vacuum": (v + i) % 3}
+				if v == 3 {
+					m["vacuum"] = true
+				}
+				if v == 5 {
+					m["features"] = []string{"plain", "alias", "pk", "cpk", "wr", "wr2", "big", "alter", "misc", "wide"}
+					m["big_density"] = 0.9
+				}
+				add(m)
 			}
-			m := M{"page_size": ps, "rows": rows, "frag": (i+v)%2 == 1, "auto_vacuum": (v + i) % 3}
-			if v == 3 {
-				m["vacuum"] = true
-			}
-			if v == 5 {
-				m["features"] = []string{"plain", "alias", "pk", "cpk", "wr", "wr2", "big", "alter", "misc", "wide"}
-				m["big_density"] = 0.9
-			}
-			add(m)
 		}
 	}
 	// depth 4 on small pages
